@@ -229,16 +229,17 @@ func (h *HTTP) Start() {
 			h.Teamserver.EventAppend(pk)
 			h.Teamserver.EventBroadcast("", pk)
 
+			// Stop() of a listener whose goroutine has not run yet must find the server
+			h.Server = &http.Server{
+				Addr:    common.GetInterfaceIpv4Addr(h.Config.HostBind) + ":" + h.Config.PortBind,
+				Handler: h.GinEngine,
+			}
+
 			go func() {
 				var (
 					CertPath = h.TLS.CertPath
 					KeyPath  = h.TLS.KeyPath
 				)
-
-				h.Server = &http.Server{
-					Addr:    common.GetInterfaceIpv4Addr(h.Config.HostBind) + ":" + h.Config.PortBind,
-					Handler: h.GinEngine,
-				}
 
 				if h.Config.Cert.Cert != "" && h.Config.Cert.Key != "" {
 					CertPath = h.Config.Cert.Cert
@@ -266,12 +267,12 @@ func (h *HTTP) Start() {
 		h.Teamserver.EventAppend(pk)
 		h.Teamserver.EventBroadcast("", pk)
 
-		go func() {
-			h.Server = &http.Server{
-				Addr:    common.GetInterfaceIpv4Addr(h.Config.HostBind) + ":" + h.Config.PortBind,
-				Handler: h.GinEngine,
-			}
+		h.Server = &http.Server{
+			Addr:    common.GetInterfaceIpv4Addr(h.Config.HostBind) + ":" + h.Config.PortBind,
+			Handler: h.GinEngine,
+		}
 
+		go func() {
 			err := h.Server.ListenAndServe()
 			if err != nil {
 				logger.Error("Couldn't start HTTP handler: " + err.Error())
@@ -285,6 +286,10 @@ func (h *HTTP) Start() {
 func (h *HTTP) Stop() error {
 	ctx, cancel := context.WithTimeout(context.Background(), 5*time.Second)
 	defer cancel()
+	// a listener that never got as far as serving has nothing to shut down
+	if h.Server == nil {
+		return nil
+	}
 	if err := h.Server.Shutdown(ctx); err != nil {
 		return err
 	}
